@@ -392,3 +392,28 @@ package websocket
 //@   assert at "if err != nil || !continuation": [C15 fits] n == Frame.PayloadLength(f) && readBytes <= s.maxMessageSize
 //@   ensures [in-buffer] 0 <= readBytes && readBytes <= len(b)
 //@   ensures [C15 too-big] readBytes > s.maxMessageSize ==> err != nil
+
+// The asynchronous message API runs the same per-frame step in a completion closure. The
+// recursion that drives it (asyncNextMessage -> AsyncNextFrame -> closure -> asyncNextMessage)
+// and AsyncClose are not under contract; what the step does with one frame is.
+//@ func (*Stream).asyncNextMessage
+//@   trusted
+//@ func (*Stream).AsyncClose
+//@   trusted
+//@ func fnparam:(*Stream).asyncNextMessage$1.callback
+//@   trusted
+
+//@ func (*Stream).asyncNextMessage$1
+//@   prop C15, C06
+//@   requires s != nil && s.codecConn != nil && callback != nil && 0 <= readBytes && readBytes <= len(b) && len(b) <= 1<<40
+//@   requires err == nil ==> len(f) >= 2 && frameWF(f) && heapslice(f) && disjoint(b, f[0:cap(f)])
+//@   // a continuation frame needs a message in progress, a new data frame must not interrupt one
+//@   assert at "if err != nil || !continuation": [C15 fragmentation] (!old(continuation) && f[0] & 15 == 0 ==> err == ErrUnexpectedContinuation) &&
+//@          (old(continuation) && f[0] & 15 != 0 ==> err == ErrExpectedContinuation) &&
+//@          ((old(continuation) == (f[0] & 15 == 0)) ==> err == nil)
+//@   // the payload of a data frame is copied right behind what was read before, as far as the buffer reaches
+//@   assert at "if readBytes > s.maxMessageSize": [C06 appended] readBytes == old(readBytes) + n &&
+//@          n == min(len(b) - old(readBytes), len(Frame.Payload(f))) &&
+//@          (forall k :: 0 <= k && k < n ==> b[old(readBytes) + k] == Frame.Payload(f)[k])
+//@   // a control frame between fragments changes nothing of the message being assembled
+//@   assert call (*Stream).asyncNextMessage: [C06 carried-on] arg1 == b && arg2 == readBytes && arg3 == continuation && arg4 == messageType && arg5 == callback
